@@ -601,6 +601,19 @@ def ex_safety(obl):
 
 
 # =========================================================================================== regain obligation
+def make_late_heal(seed, crash, t_p1, t_crash, down, heal, fast, extra):
+    """Second directed template: the cut-off first leader n0 keeps appending entries of term 1; the majority side goes
+    through *two* leaderships (its leader is down for a moment and restarts) before the partition heals, so the new
+    leader's first AppendEntries to n0 names a previous entry that n0 holds with another term."""
+    return {"n": 5, "hb": 40, "eto": [150, 150], "T": heal + 900, "timeouts": [0, 500, 300, 900, 900],
+            "net": {"delays": [fast], "loss": [], "seed": seed, "slow": [],
+                    "parts": [{"t": t_p1, "dur": heal - t_p1, "mask": 3}],
+                    "crashes": [{"node": crash, "t": t_crash, "dur": down, "rearm": True}]},
+            "submits": [{"t": 200, "node": 0, "leader": False}, {"t": 201, "node": 0, "leader": False},
+                        {"t": 600, "node": 0, "leader": True}, {"t": 700, "node": 0, "leader": True},
+                        {"t": heal - 60, "node": 0, "leader": True}] + extra}
+
+
 def make_regain(seed, crash, k, t_p1, heal, t_crash, t_p2, t_d, slow, fast, extra, back):
     """A *directed* schedule family (jittered template, see the rule text): the first leader n0 is cut off with n1
     while n1's answers to it crawl; the majority elects a new leader whose entry overwrites n0's log; that leader
@@ -617,6 +630,15 @@ def make_regain(seed, crash, k, t_p1, heal, t_crash, t_p2, t_d, slow, fast, extr
 
 
 def regain_strategy(tier):
+    extra = st.lists(st.fixed_dictionaries({"t": st.integers(1500, 4000), "node": st.integers(0, 4), "leader": st.just(True)}),
+                     max_size=2)
+    late = st.builds(make_late_heal, seed=st.integers(0, 2 ** 16), crash=st.sampled_from([2, 3, 4]), t_p1=st.integers(204, 232),
+                     t_crash=st.integers(780, 900), down=st.integers(150, 300), heal=st.integers(1350, 1600),
+                     fast=st.sampled_from([1, 2, 3, 5]), extra=extra)
+    return st.one_of(late, _regain_main(), _regain_main())
+
+
+def _regain_main():
     return st.builds(make_regain, seed=st.integers(0, 2 ** 16), crash=st.sampled_from([2, 3, 4]), k=st.sampled_from([2, 3, 4]),
                      t_p1=st.integers(204, 232), heal=st.integers(760, 860), t_crash=st.integers(920, 1000),
                      t_p2=st.integers(1340, 1395), t_d=st.integers(1396, 1440), slow=st.sampled_from([1500, 1700, 2000]),
@@ -776,6 +798,8 @@ OBLIGATIONS = [
                "nodes, fast network; leader n0 accepts two commands, is partitioned together with n1 whose answers to n0 take "
                "1.5-2 s; the majority side elects a leader, commits another command, the partition heals (n0's log is overwritten), "
                "that leader crashes (and may come back later); a second partition leaves whoever leads with one follower while the late answers of n1 arrive. "
+               "A third of the cases use a second template: the cut-off leader keeps appending while the majority side goes through "
+               "two leaderships before the partition heals, so the consistency check of AppendEntries meets an entry of another term. "
                "Jitter: PRNG seed of the election timeouts, crashed node, partition/crash/submit times, delays. Reaches the state "
                "'a node leads for the second time while answers to its first leadership are still in flight'. Non-trivial as in "
                "`safety`; the label stale-ack-delivered-to-leader marks the histories that reach the targeted state"),
